@@ -54,7 +54,7 @@ async fn write_entries(zip: &Path, entries: &[(String, Vec<u8>)]) -> Result<(), 
     Ok(())
 }
 
-fn tree(root: &Path, skip: &Path) -> BTreeMap<String, String> {
+pub fn tree(root: &Path, skip: &Path) -> BTreeMap<String, String> {
     let mut out = BTreeMap::new();
     fn walk(base: &Path, p: &Path, skip: &Path, out: &mut BTreeMap<String, String>) {
         let Ok(rd) = std::fs::read_dir(p) else { return };
